@@ -14,7 +14,7 @@ THEOREMS = ['Harvest.c05_step', 'Harvest.c05_step_first', 'Harvest.c05_mem_eq_di
             'Harvest.hvSaveFull_error_keeps_mem', 'Harvest.hvAddDs_merge_error_no_write',
             # save_merge_ds, delete_ds, full_ds, expand_dims / drop_sel, the harvest tails as translated (Refine/StoreIO.lean)
             'Harvest.saveMergeDs_eq_spec', 'Harvest.saveMergeDs_refines', 'Harvest.saveMergeDs_default_engine',
-            'Harvest.hvDeleteDs_refines', 'Harvest.hvDeleteDs_backup', 'Harvest.hvFullDs_refines', 'Harvest.hvFullDs_mem',
+            'Harvest.hvDeleteDs_refines', 'Harvest.hvDeleteDs_dispatch', 'Harvest.hvDeleteDs_backup', 'Harvest.hvFullDs_refines', 'Harvest.hvFullDs_mem',
             'Harvest.hvExpandDims_eq_spec', 'Harvest.hvDropSel_eq_spec', 'Harvest.rewriteSpec_refines',
             'Harvest.hvExpandDims_refines', 'Harvest.hvDropSel_refines', 'Harvest.hvDropSel_error_no_write',
             'Harvest.hvHarvest_eq_addDs', 'Harvest.hvHarvestCombos_ellipsis', 'Harvest.hvHarvest_chunks',
